@@ -163,11 +163,11 @@ def run(cx: Cx):
     sites = cx.effects.sites_of(TLOC)
     for s in sites:
         d = s.ev.data
-        if s.fn.qualname == CORE + 'SystemManager.__init__' and s.kind == 'rebind' and d.get('value') == Num(Fraction(0)):
+        if s.owner_q == CORE + 'SystemManager.__init__' and s.kind == 'rebind' and d.get('value') == Num(Fraction(0)):
             cx.ok('R-DISC', 'clock starts at 0', where=s.where, function=s.fn.qualname)
-        elif s.fn.qualname == fn.qualname and s.kind == 'aug' and d.get('aug') == 'Add' and d.get('operand') == Num(Fraction(1)):
+        elif s.owner_q == fn.qualname and s.kind == 'aug' and d.get('aug') == 'Add' and d.get('operand') == Num(Fraction(1)):
             cx.ok('R-DISC', 'clock += 1 in execute_systems', where=s.where, function=s.fn.qualname)
-        elif s.fn.qualname == fn.qualname and s.kind == 'rebind' and d.get('value') == \
+        elif s.owner_q == fn.qualname and s.kind == 'rebind' and d.get('value') == \
                 __import__('sa.terms', fromlist=['add']).add(t, Num(Fraction(1))):
             cx.ok('R-DISC', 'clock = clock + 1 in execute_systems', where=s.where, function=s.fn.qualname)
         else:
@@ -234,7 +234,8 @@ def run(cx: Cx):
     for p in mps:
         calls = [e for e in p.events if e.kind == 'call' and any(tg.qualname == fn.qualname for tg in e.data.get('targets', []))]
         other = [e for e in p.events if e.kind == 'call' and e.data.get('target_kind') in ('pkg', 'unknown')
-                 and e not in calls and e.data.get('via') != 'getitem']
+                 and e not in calls and e.data.get('via') != 'getitem' and not e.data.get('full_inline')
+                 and not e.data.get('inlined') and not e.inlined]
         if p.end == 'raise':
             last = p.last
             if not last.data.get('direct'):
@@ -244,9 +245,12 @@ def run(cx: Cx):
                              "Model.execute steps the model before rejecting its argument", where=cx.where(mex, last.line),
                              path=p.lines())
             continue
-        succ_conds.append(p.cond)
         iters = [e for e in p.events if e.kind == 'iter']
         loops = [e for e in p.events if e.kind == 'loop']
+        # acceptance is decided by the conditions established before the first step is taken
+        first_it = p.events.index(iters[0]) if iters else len(p.events)
+        succ_conds.append(f_and(*[e.data['formula'] for e in p.events[:first_it + 1] if e.kind == 'cond' and
+                                  (p.events.index(e) < first_it)]))
         if len(loops) != 1:
             cx.violation('R-ITER', mex.qualname, 'single-range-n-loop',
                          f"Model.execute's accepting path has {len(loops)} loops (expected one loop of n steps)",
@@ -255,6 +259,27 @@ def run(cx: Cx):
         lp = loops[0]
         info_ok = False
         itn = lp.data.get('iter')
+        if itn is None:
+            # a counting while loop: the k-th loop test must be `n - (k-1) > 0` (a local that starts at n and goes down by
+            # one per step) or `(k-1) < n` (a local that starts at 0 and goes up by one per step)
+            tests = [e for e in p.events if e.kind == 'cond' and e.data.get('loop_test')]
+            good_tests = bool(tests)
+            for k, te in enumerate([t for t in tests if t.data.get('taken')]):
+                want = mk_cmp(sub(n, Num(Fraction(k))), '>', Num(Fraction(0)))
+                if compare(te.data['formula'], want, domain='int') is not None:
+                    good_tests = False
+            exits = [t for t in tests if not t.data.get('taken')]
+            for te in exits:
+                k = len([t for t in tests if t.data.get('taken') and p.events.index(t) < p.events.index(te)])
+                want = f_not(mk_cmp(sub(n, Num(Fraction(k))), '>', Num(Fraction(0))))
+                if compare(te.data['formula'], want, domain='int') is not None:
+                    good_tests = False
+            if good_tests:
+                info_ok = True
+            else:
+                cx.inconclusive('R-ITER', 'Model.execute trip count', "Model.execute steps in a while loop whose trip count is not "
+                                "recognisably n", where=cx.where(mex, lp.line), function=mex.qualname)
+                continue
         if isinstance(itn, App) and itn.fn == 'range':
             a = itn.args
             if (len(a) == 1 and a[0] == n) or (len(a) >= 2 and a[0] == Num(Fraction(0)) and a[1] == n and
